@@ -137,6 +137,7 @@ pub struct Outcome {
     pub infra: Option<String>,
     pub discarded: Option<&'static str>,
     pub early_inside: bool,
+    pub chained: bool,
     pub states: usize,
     pub cond: Option<String>,
     pub script_b: String,
@@ -260,6 +261,30 @@ pub fn run_case(p: &Program, rules: &[FlatRule], exe: &std::path::Path, h: &[Op]
     let cu_b = cmds.len() - 1;
     cmds.push(hist::Cmd { text: "dump".into(), kind: hist::CmdKind::Dump });
     let d1 = cmds.len() - 1;
+    // chains: a second close_until right after the first one, either with the SAME condition (it
+    // already holds: the call must return true at once and must not lose pending work) or with a
+    // condition that turns true later in the trace (resumption through several early returns)
+    let mut second: Option<(usize, Cond, usize)> = None;
+    match choice % 4 {
+        1 | 3 => {
+            cmds.push(hist::Cmd { text: format!("cu 1 {}", cond.text()), kind: hist::CmdKind::Close });
+            second = Some((cmds.len() - 1, cond.clone(), 0));
+        }
+        2 => {
+            let later: Vec<&(usize, Cond)> = cands.iter().filter(|(k2, c2)| *k2 > k && !c2.eval(p, &states[k])).collect();
+            if !later.is_empty() {
+                let (_, c2) = later[(choice as usize / 4) % later.len()];
+                cmds.push(hist::Cmd { text: format!("cu 1 {}", c2.text()), kind: hist::CmdKind::Close });
+                second = Some((cmds.len() - 1, c2.clone(), 0));
+            }
+        }
+        _ => {}
+    }
+    if let Some(sec) = second.as_mut() {
+        cmds.push(hist::Cmd { text: "dump".into(), kind: hist::CmdKind::Dump });
+        sec.2 = cmds.len() - 1;
+    }
+    o.chained = second.is_some();
     let extra_cmds = hist::render(p, &extra, &r);
     cmds.extend(extra_cmds.into_iter().skip(2));
     cmds.push(hist::Cmd { text: "dump".into(), kind: hist::CmdKind::Dump });
@@ -333,6 +358,45 @@ pub fn run_case(p: &Program, rules: &[FlatRule], exe: &std::path::Path, h: &[Op]
     if let Err(e) = iso::homomorphic(p, &m1, &free, &prelens) {
         o.finding = Some(format!("the state in which close_until stopped is not contained in the free model: {}", e));
         return o;
+    }
+    // the second call of a chain
+    if let Some((line, c2, dline)) = &second {
+        let (ret2, evals2, _) = match resps[*line].cu() {
+            Some(x) => x,
+            None => {
+                o.infra = Some("no cu (B2)".into());
+                return o;
+            }
+        };
+        let m1b = match get(*dline) {
+            Some(d) => d.to_model(p),
+            None => {
+                o.infra = Some("missing dump (B2)".into());
+                return o;
+            }
+        };
+        if ret2 && !c2.eval(p, &m1b) {
+            o.finding = Some(format!("second close_until returned true but the condition `{}` does not hold in the returned state", c2.text()));
+            return o;
+        }
+        if !ret2 {
+            if c2.eval(p, &m1b) {
+                o.finding = Some(format!("second close_until returned false although the condition `{}` holds in the returned state", c2.text()));
+                return o;
+            }
+            if let Some(e) = chase::first_unsatisfied(p, rules, &m1b, 2_000_000) {
+                o.finding = Some(format!("second close_until returned false in a state that is not closed: {}", e));
+                return o;
+            }
+        }
+        if ret_b && c2 == &cond && (!ret2 || evals2 != 1) {
+            o.finding = Some(format!("close_until was called again with the condition `{}` that already held: it returned {} after {} evaluations (expected true at the first evaluation)", c2.text(), ret2, evals2));
+            return o;
+        }
+        if let Err(e) = iso::homomorphic(p, &m1b, &free, &prelens) {
+            o.finding = Some(format!("the state in which the second close_until stopped is not contained in the free model: {}", e));
+            return o;
+        }
     }
     // (3) resumption: close() after the early return (and further facts) reaches the free model
     let (ret_c, _, _) = match resps[cl].cu() {
@@ -445,6 +509,9 @@ pub fn run_c07(tier: &str, seed: u64) -> campaign::CampaignResult {
                 ev.count("cases_with_monotone_condition", 1);
             }
             ev.count("states_observed", o.states as u64);
+            if o.chained && o.discarded.is_none() {
+                ev.count("cases_with_a_second_close_until_after_the_early_return", 1);
+            }
             if o.early_inside && o.discarded.is_none() {
                 ev.nontrivial.insert(*fp);
             }
@@ -469,7 +536,7 @@ pub fn run_c07(tier: &str, seed: u64) -> campaign::CampaignResult {
     }
     ev.count("programs_built", built);
     ev.extra.insert("programs".into(), json!(built));
-    ev.rule = "two-phase cases: (A) history + observing close_until gives the trace of states at every evaluation of the condition; a monotone condition (holds/defined/equal over caller-known ids, and/or combinations) that first becomes true at a chosen state is derived; (B) same history with that condition, then further assertions, then close(). evaluations = cases; non-trivial = the condition turns true strictly before the fixed point (an early return with pending work); distinct by hash(program, phase-B script)".into();
+    ev.rule = "two-phase cases: (A) history + observing close_until gives the trace of states at every evaluation of the condition; a monotone condition (holds/defined/equal over caller-known ids, and/or combinations) that first becomes true at a chosen state is derived; (B) same history with that condition, then (half of the cases) a second close_until - with the same condition, which already holds, or with a condition that turns true later in the trace -, then further assertions, then close(). evaluations = cases; non-trivial = the condition turns true strictly before the fixed point (an early return with pending work); distinct by hash(program, phase-B script)".into();
     ev.assumptions = vec!["reference chase terminates within the bound for judged cases; the state before close_until is taken from the public dump (C05 checks its faithfulness)".into()];
     ev.violations = violations as u64;
     ev.wall_s = start.elapsed().as_secs_f64();
